@@ -17,6 +17,12 @@ rc0=$(run_demo); echo "demo on unchanged tree: exit $rc0 (expected 0)" | tee -a 
 if ! git -C "$WT" apply "$S/patch.diff"; then echo "PATCH DOES NOT APPLY" | tee -a "$R"; exit 3; fi
 if ! cmake --build "$WT/_build" -j$J > "$WT/_build.log" 2>&1; then echo "BUILD WITH PATCH FAILED" | tee -a "$R"; tail -5 "$WT/_build.log"; git -C "$WT" checkout -q -- .; exit 4; fi
 ctest --test-dir "$WT/_build" -j8 --timeout 900 > "$WT/_ctest.log" 2>&1; rcT=$?
+if [ $rcT -ne 0 ]; then
+  # timing-sensitive tests of the suite flake on a loaded machine: failed tests get two more attempts, serially
+  echo "first ctest run: $(grep -E 'tests passed|tests failed' "$WT/_ctest.log" | tail -1); failed: $(grep -E '^\s+[0-9]+ - ' "$WT/_ctest.log" | tr -s ' ' | tr '\n' ';')" | tee -a "$R"
+  ctest --test-dir "$WT/_build" --rerun-failed --repeat until-pass:3 --timeout 900 > "$WT/_ctest2.log" 2>&1; rcT=$?
+  cp "$WT/_ctest2.log" "$WT/_ctest.log"
+fi
 echo "ctest with patch: exit $rcT; $(grep -E 'tests passed|tests failed' "$WT/_ctest.log" | tail -1)" | tee -a "$R"
 if [ $rcT -ne 0 ]; then grep -E "Failed|\*\*\*" "$WT/_ctest.log" | head -5 | tee -a "$R"; fi
 rc1=$(run_demo); echo "demo with patch: exit $rc1 (expected non-zero)" | tee -a "$R"
